@@ -8,6 +8,17 @@ TRUSTED_COMMON = [
 ]
 
 FAMILY_ASSUMPTIONS = {
+    "bind": [
+        "bitmap predicates (iszero, isincluded, copy, alloc/free) and the root-set getters are replaced by contract stubs over ghost facts (/verif/include/bind.model.h); their real implementations are verified under C03",
+        "hwloc_cpuset_to_nodeset / hwloc_cpuset_from_nodeset (inline helpers of helper.h, C09) are replaced by contract stubs: the two call sites in bind.c are redirected by #define",
+        "OS hooks are nondeterministic stubs (any return value, any errno); hwloc_bitmap_alloc never fails in the model (bind.c does not check it either)",
+        "the live-system clauses of C10 (kernel round trip, load restores the binding) are OS behaviour and not decided",
+    ],
+    "traversal": [
+        "snprintf is replaced by its C99 contract in stub form (/verif/stubs/snprintf.h): returns -1 or a length <= PIECE_MAX, writes only the NUL, a first byte and one ghost byte",
+        "destination buffers are 0..BUFMAX (64) bytes inside a guarded arena; hwloc_pci_class_string is an external stub",
+        "goto-instrument --apply-loop-contracts makes all statics nondeterministic: the OS-device names table is arbitrary in these proofs (an over-approximation)",
+    ],
     "bitmap": [
         "abstract realloc stub /verif/stubs/realloc.h (NULL, or fresh block with arbitrary contents except ghost words g_k,g_k2; over-approximates libc realloc)",
         "abstract memcpy stub /verif/stubs/memcpy_words.h for word arrays (checks validity/no-overlap, preserves ghost words only)",
@@ -46,7 +57,7 @@ def repo_head():
         return "unknown"
 
 
-def write(here, prop, tier, seed, jobs, results, violations, known_hits, undecided, wall):
+def write(here, prop, tier, seed, jobs, results, violations, known_hits, undecided, wall, suffix=""):
     proof_obl = proof_dis = 0
     bounded = []
     functions = []
@@ -116,5 +127,5 @@ def write(here, prop, tier, seed, jobs, results, violations, known_hits, undecid
         "violations": len(violations),
     }
     os.makedirs(os.path.join(here, "evidence"), exist_ok=True)
-    with open(os.path.join(here, "evidence", prop + ".json"), "w") as f:
+    with open(os.path.join(here, "evidence", prop + suffix + ".json"), "w") as f:
         json.dump(ev, f, indent=1)
